@@ -148,9 +148,11 @@ class Reader:
     def __init__(self, spec, ignore_default_attributes=False):
         self.spec = spec
         self.ignore_defaults = ignore_default_attributes
+        self.path = []          # where in the encoded instance the value being read lives: [py, idx, py, ...]
 
     def leaf(self, v, types=None, tokens=False, fmt=None):
-        return {"v": v, "fmt": fmt if fmt is not None else (fmt_of(types) if types else None), "tokens": tokens}
+        return {"v": v, "fmt": fmt if fmt is not None else (fmt_of(types) if types else None), "tokens": tokens,
+                "types": types, "path": list(self.path)}
 
     def document(self, inst):
         cid = inst["obj"]
@@ -163,7 +165,8 @@ class Reader:
         cid = inst["obj"]
         c = spec["classes"][cid]
         class_ns = class_namespace(c, parent_ns)
-        node = {"q": qname, "attrs": {}, "xsi_type": None, "nil": False, "children": [], "any": False}
+        node = {"q": qname, "attrs": {}, "xsi_type": None, "nil": False, "children": [], "any": False, "cid": cid}
+        base_path = list(self.path)
         if declared is not None and cid != declared:
             node["xsi_type"] = target_qname(spec, cid)          # docs: derived instances carry xsi:type
         fl = fields_in_order(spec, cid, class_ns)
@@ -179,6 +182,7 @@ class Reader:
                 if self.ignore_defaults and not f.get("required") and f["card"] != "one" and equals_default(spec, f, v):
                     continue
                 name = qn(f.get("namespace") or None, field_local_name(c, f, "Attribute"))
+                self.path = base_path + [f["py"]]
                 node["attrs"][name] = self.leaf(items if f.get("tokens") else v, f["types"], bool(f.get("tokens")))
             elif f["kind"] == "Attributes":
                 for k, val in (v or {"map": []})["map"]:
@@ -190,6 +194,7 @@ class Reader:
             f, decl_ns = content[i]
             seq = f.get("sequence")
             if seq is None:
+                self.path = base_path + [f["py"]]
                 self.field(node, c, f, decl_ns, inst["kw"].get(f["py"]), class_ns)
                 i += 1
                 continue
@@ -207,9 +212,11 @@ class Reader:
                         items = seq_items(v) or []
                         if rnd < len(items):
                             progressed = True
+                            self.path = base_path + [g["py"], rnd]
                             self.single(node, c, g, gns, items[rnd], class_ns)
                     elif rnd == 0:
                         progressed = True
+                        self.path = base_path + [g["py"]]
                         self.field(node, c, g, gns, v, class_ns)
                 if not progressed:
                     break
@@ -218,6 +225,7 @@ class Reader:
         # meaningful content
         if (field_nillable or c["meta"].get("nillable")) and not node["children"]:
             node["nil"] = True
+        self.path = base_path
         return node
 
     # one field --------------------------------------------------------------
@@ -246,7 +254,9 @@ class Reader:
             if v is None:
                 return
             items = seq_items(v) if f["card"] == "list" else [v]
-            for item in items:
+            base = list(self.path)
+            for k, item in enumerate(items):
+                self.path = base + [k] if f["card"] == "list" else base
                 self.choice(node, c, f, decl_ns, item, class_ns)
             return
         # Element
@@ -255,15 +265,18 @@ class Reader:
             return
         if f.get("wrapper"):
             wns = (f["namespace"] if "namespace" in f else decl_ns) or None
-            target = {"q": qn(wns, f["wrapper"]), "attrs": {}, "xsi_type": None, "nil": False, "children": [], "any": False}
+            target = {"q": qn(wns, f["wrapper"]), "attrs": {}, "xsi_type": None, "nil": False, "children": [], "any": False, "cid": None, "wrapper": True}
             node["children"].append(target)
+        base = list(self.path)
         if f.get("tokens") == 2:
-            for inner in seq_items(v):
+            for k, inner in enumerate(seq_items(v)):
+                self.path = base + [k]
                 self.single(target, c, f, decl_ns, inner, class_ns)
         elif f.get("tokens") == 1:
             self.single(target, c, f, decl_ns, v, class_ns)
         elif f["card"] == "list":
-            for item in seq_items(v):
+            for k, item in enumerate(seq_items(v)):
+                self.path = base + [k]
                 self.single(target, c, f, decl_ns, item, class_ns)
         else:
             self.single(target, c, f, decl_ns, v, class_ns)
@@ -283,7 +296,7 @@ class Reader:
             # the child class inherits the namespace of this class when it has none of its own
             node["children"].append(self.instance(v, q, class_ns, nillable, declared))
             return
-        el = {"q": q, "attrs": {}, "xsi_type": None, "nil": False, "children": [], "any": False}
+        el = {"q": q, "attrs": {}, "xsi_type": None, "nil": False, "children": [], "any": False, "cid": None}
         if tokens:
             items = seq_items(v) if v is not None else []
             if items:
@@ -337,7 +350,7 @@ class Reader:
             return
         kw = item["kw"]
         el = {"q": kw["qname"], "attrs": {k: {"raw": v} for k, v in kw["attributes"]["map"]}, "xsi_type": None,
-              "nil": False, "children": [], "any": True}
+              "nil": False, "children": [], "any": True, "cid": None}
         if kw.get("text"):
             el["children"].append({"raw": kw["text"]})
         for ch in kw["children"]:
